@@ -57,6 +57,9 @@ REQUIRED_THEOREMS = [
     "input_object_state_source", "exception_inside_block", "nested_blocks_outer_exit_wins", "id_ranges_follow_source",
     # round 4: the quad cut of triangulate_face: directed sides, orientation / border sides on regular complexes, components
     "manifold_preserved_quad_cut", "border_preserved_quad_cut", "components_preserved_quad_cut", "quad_cut_source",
+    # round 5: split_double_boundary_edges_triangles translated + modelled (was oracle-only); components through the fan
+    "split_double_boundary_follows_source", "split_double_boundary_opens_a_block", "split_double_boundary_source",
+    "components_preserved_fan", "components_preserved_triangulate", "components_preserved_split_double_boundary",
 ]
 TRUSTED = [
     "Lean 4.33.0 kernel; axioms ⊆ {propext, Classical.choice, Quot.sound}",
@@ -909,8 +912,6 @@ def _pt(v):
 
 def model_request(case):
     t = case["t"]
-    if any(b == [["sdb"]] for b in all_blocks(case)):
-        return None          # composite of the deg-2 detection + fan splits: oracle-only (see report)
     toks = [t, str(len(case["V"]))] + [_pt(v) for v in case["V"]]
     if t == "poly":
         toks += [str(len(case["E"]))] + [f"{a} {b}" for a, b in case["E"]]
@@ -1291,7 +1292,11 @@ def translate():
         if st is None or not app: raise T.TranslateError(f"set/append pattern on {attr} not found")
         return unpack, st, app
 
-    tree, _ = T.load("mouette/mesh/subdivision.py")
+    try:
+        tree, _ = T.load("mouette/mesh/subdivision.py")
+    except Exception as e:  # noqa: unreadable source -> every site fails below and ALL generated files are rewritten as stubs
+        tree = ast.parse("")
+        recs.append({"site": "subdivision.py: source file readable", "ok": False, "detail": f"{type(e).__name__}: {e}"[:200]})
     # round 4: the BODIES of the operations, the block protocol as step lists, the id_* properties -> Generated/C13Src.lean
     from ..gen import c13_translate as CT
     recs_bodies, translated_bodies = CT.translate_bodies()
@@ -1614,13 +1619,13 @@ _TRANSLATED = {
     f"{_SUB}::VolumeSubdivision.__exit__": "exit_follows_source",
     f"{_SUB}::VolumeSubdivision.split_cell_as_fan": "split_cell_as_fan_follows_source",
     f"{_SUB}::VolumeSubdivision.split_tet_from_face_center": "split_tet_from_face_center_follows_source",
+    f"{_SUB}::split_double_boundary_edges_triangles": "split_double_boundary_follows_source",
     f"{_MD}::RawMeshData.id_vertices": "id_ranges_follow_source",
     f"{_MD}::RawMeshData.id_edges": "id_ranges_follow_source",
     f"{_MD}::RawMeshData.id_faces": "id_ranges_follow_source",
     f"{_MD}::RawMeshData.id_cells": "id_ranges_follow_source",
 }
 _OTHER = {
-    f"{_SUB}::split_double_boundary_edges_triangles": "oracle-only",
     f"{_MD}::RawMeshData.__init__": "modelled",                      # Block.enter: the wrapper shares the containers
     f"{_MD}::RawMeshData.prepare": "modelled",                       # Subdiv.prepare = completeEdges . completeFaces
     f"{_MD}::RawMeshData._complete_edges_from_faces": "modelled",    # Subdiv.completeEdges
